@@ -104,6 +104,7 @@ inductive Tok where
   | err (triple : String) (sev : String)
   | count (k : Nat)
   | results (cs : List Tok)
+  | wrap (cs : List Tok)      -- an element outside the grammar around children of the grammar
   deriving Repr, Inhabited
 
 def parseTokFlat (s : String) : Option Tok :=
@@ -117,8 +118,17 @@ def parseTokFlat (s : String) : Option Tok :=
   else if s.startsWith "c" then ((s.drop 1).toString.toNat?).map .count
   else none
 
+/-- `W:<name>:<inner>` — the name holds no colon, the inner tokens may (`e:…`) -/
+def parseWrap (s : String) : Option Tok :=
+  match (s.drop 2).toString.splitOn ":" with
+  | _ :: more =>
+    let inner := ":".intercalate more
+    if inner == "_" then some (.wrap []) else (mapM? parseTokFlat (inner.splitOn "+")).map .wrap
+  | [] => none
+
 def parseTok (s : String) : Option Tok :=
-  if s.startsWith "R:" then
+  if s.startsWith "W:" then parseWrap s
+  else if s.startsWith "R:" then
     let inner := (s.drop 2).toString
     if inner == "_" then some (.results []) else (mapM? parseTokFlat (inner.splitOn "+")).map .results
   else parseTokFlat s
@@ -128,6 +138,11 @@ def parseDoc (s : String) : Option (List Tok) :=
 
 def Tok.isErrSev : Tok → Bool
   | .err _ sev => sev == "error"
+  | _ => false
+
+/-- an rpc-error of severity error inside an element the grammar does not know: still carried by the reply -/
+def Tok.hidesErrSev : Tok → Bool
+  | .wrap cs => cs.any Tok.isErrSev
   | _ => false
 
 def Tok.triple? : Tok → Option String
@@ -154,7 +169,7 @@ def specReply (k : ReplyKind) (doc : List Tok) (outcome : String) : String :=
   let scope := errScope k doc
   let allErrs := (doc.filterMap Tok.triple?) ++ (if k == .load then scope.filterMap Tok.triple? else [])
   if outcome == "ok" || outcome.startsWith "data:" then
-    if scope.any Tok.isErrSev || doc.any Tok.isErrSev then "violation success-despite-error"
+    if scope.any Tok.isErrSev || doc.any Tok.isErrSev || doc.any Tok.hidesErrSev then "violation success-despite-error"
     else if !positive k doc then "violation success-without-positive-indication"
     else "ok"
   else if outcome.startsWith "rpcerr:" then
